@@ -112,3 +112,62 @@ Theorem cw_lmf_correct_for_every_built_automaton :
   forall cs, Forall scalar cs -> cw_leftmost_find_iter V A (encode_utf8 cs) = Ok (map (to_bytes V cs) (spec_lmf V pvs cs)).
 Proof. exact cw_built_lmf. Qed.
 Print Assumptions cw_lmf_correct_for_every_built_automaton.
+
+(* ---- C04 AS ONE DECLARATIVE STATEMENT ----------------------------------------------------------------
+   [lm_seq] as in C03 (smallest start at or after the previous end at which any occurrence starts,
+   resume at the end of the reported match) with the rule [lmf_pick]: the pattern reported at that
+   start is the one that occurs there and has no earlier-registered pattern occurring there
+   (pvs = l1 ++ pv :: l2, nothing in l1 occurs at the start). *)
+From DV Require Import Theory.SpecLeftmostSeq Theory.Utf8Spec Theory.Utf8Spec2 Proofs.BuildTrie Proofs.BuildProps.
+
+Theorem spec_lmf_is_the_leftmost_first_sequence :
+  forall (V : Type) (pvs : list (list N * V)) (h : list N),
+    lm_seq V (lmf_pick V pvs h) pvs h 0 (spec_lmf V pvs h).
+Proof. exact SpecLeftmostSeq.spec_lmf_is_the_leftmost_first_sequence. Qed.
+Print Assumptions spec_lmf_is_the_leftmost_first_sequence.
+
+Theorem leftmost_first_sequences_are_sound_and_disjoint :
+  forall (V : Type) (pvs : list (list N * V)) (h : list N) (from : nat) (ms : list (nat * nat * V)),
+    lm_seq V (lmf_pick V pvs h) pvs h from ms ->
+    (forall s e v, In (s, e, v) ms -> occ_at V pvs h s e v /\ (from <= s)%nat)
+    /\ (forall a m b m' c, ms = a ++ m :: b ++ m' :: c -> (snd (fst m) <= fst (fst m'))%nat).
+Proof.
+  intros V pvs h from ms H. split.
+  - exact (lm_seq_sound V _ pvs h (lmf_pick_occ V pvs h) from ms H).
+  - exact (lm_seq_non_overlapping V _ pvs h (lmf_pick_occ V pvs h) from ms H).
+Qed.
+Print Assumptions leftmost_first_sequences_are_sound_and_disjoint.
+
+Theorem bw_leftmost_first_search_returns_the_leftmost_first_sequence :
+  forall (V : Type) (veqb : V -> V -> bool), (forall a b, veqb a b = true <-> a = b) ->
+  forall nfb (pvs : list (list N * V)) (A : bw_automaton V),
+    (forall p v, In (p, v) pvs -> Forall (fun b => b < 256) p) -> 4 * total_len V pvs <= U32_MAX - 1 ->
+    bw_build_with_values V LeftmostFirst nfb pvs = Ok A ->
+  forall h, Forall (fun b => b < 256) h ->
+    exists ms, bw_leftmost_find_iter V A h = Ok ms /\ lm_seq V (lmf_pick V pvs h) pvs h 0 ms.
+Proof.
+  intros V veqb Hv nfb pvs A Hb Hs HA h Hh. exists (spec_lmf V pvs h). split.
+  - exact (bw_built_lmf V veqb Hv nfb pvs A Hb Hs HA h Hh).
+  - apply SpecLeftmostSeq.spec_lmf_is_the_leftmost_first_sequence.
+Qed.
+Print Assumptions bw_leftmost_first_search_returns_the_leftmost_first_sequence.
+
+Theorem cw_leftmost_first_search_returns_the_leftmost_first_sequence :
+  forall (V : Type) (veqb : V -> V -> bool), (forall a b, veqb a b = true <-> a = b) ->
+  forall nfb (pvs : list (list N * V)) (A : cw_automaton V),
+    (forall p v, In (p, v) pvs -> Forall scalar p) -> 4 * total_len V pvs <= U32_MAX - 1 ->
+    cw_build_with_values V LeftmostFirst nfb pvs = Ok A ->
+  forall cs, Forall scalar cs ->
+    exists ms, cw_leftmost_find_iter V A (encode_utf8 cs) = Ok ms
+               /\ lm_seq V (lmf_pick V (bpvs V pvs) (encode_utf8 cs)) (bpvs V pvs) (encode_utf8 cs) 0 ms.
+Proof.
+  intros V veqb Hv nfb pvs A Hsc Hs HA cs Hcs. exists (spec_lmf V (bpvs V pvs) (encode_utf8 cs)). split.
+  - rewrite (cw_built_lmf V veqb Hv nfb pvs A Hs HA cs Hcs). f_equal.
+    destruct (cw_build_ok_lemma V LeftmostFirst nfb pvs A Hs HA) as (Hv' & _).
+    apply spec_build_error_none_iff_valid in Hv' as (_ & Hne0 & Hnd).
+    assert (Hne : forall p v, In (p, v) pvs -> p <> []).
+    { intros p v Hin. rewrite Forall_forall in Hne0. apply Hne0. apply in_map_iff. exists (p, v). auto. }
+    symmetry. exact (spec_lmf_bytes_eq_chars V pvs Hne Hsc cs Hcs).
+  - apply SpecLeftmostSeq.spec_lmf_is_the_leftmost_first_sequence.
+Qed.
+Print Assumptions cw_leftmost_first_search_returns_the_leftmost_first_sequence.
